@@ -49,7 +49,7 @@ InitSem(m, h, v)      == Overlay(m, h, CanonHdr(v))
 (***************************************************************************)
 (* Operation descriptors.                                                  *)
 (*   op   : "get" | "set" | "init" | "nullget" | "nullset" | "nullinit"    *)
-(*          | "badget" | "badset" | "nullout"                              *)
+(*          | "badget" | "badset" | "nullout" | "payload"                  *)
 (*   view : a view of Wire1722     field : field name (get/set)            *)
 (*   path : "generic" | "dedicated" | "legacy"                             *)
 (*   val  : 64-bit value (set; legacy cvf init: format_subtype)            *)
@@ -81,6 +81,8 @@ Apply(m, h, o, outPre) ==
          IF o.path = "legacy" THEN R(m, NoRet, EINVAL, outPre) ELSE R(m, NoRet, 0, outPre)
     [] o.op = "nullout" ->                   \* deprecated getter with a null result pointer
          R(m, NoRet, EINVAL, outPre)
+    [] o.op = "payload" ->                   \* payload accessor: the address right after the header (C03)
+         R(m, V64(HdrLen[o.view]), 0, outPre)
 
 Touches(o) == o.op \in {"set", "init"}
 
